@@ -519,11 +519,34 @@ def mon_C08(ops, results):
 
 def mon_C09(ops, results):
     out = []
+    live_seen = {}      # (coll, key, cas) -> the event a live (full) feed delivered for that mutation
     for i, name, pos, args, res, last, feeds in Trace(ops, results).steps():
+        if name == "drain" and pos and pos[0] in feeds and not feeds[pos[0]]["dump"] and not feeds[pos[0]]["keysonly"]:
+            inbf = False
+            for t in res.split(" "):
+                if t == "ev:begin":
+                    inbf = True
+                elif t == "ev:end":
+                    inbf = False
+                elif t.startswith("ev:{") and not inbf:
+                    e = ev_fields(t)
+                    live_seen[(feeds[pos[0]]["coll"], e.get("k"), e.get("cas"))] = e
         if name != "drain" or not pos or pos[0] not in feeds or not feeds[pos[0]]["dump"]:
             continue
         f = feeds[pos[0]]
         toks_ = [t for t in res.split(" ") if t.startswith("ev:")]
+        if not f["keysonly"]:
+            # a backfilled event is the event a live feed delivered for the same mutation
+            for t in toks_:
+                if not t.startswith("ev:{"):
+                    continue
+                e = ev_fields(t)
+                le = live_seen.get((f["coll"], e.get("k"), e.get("cas")))
+                if le is not None:
+                    diff = [g for g in ("op", "dt", "v", "x") if e.get(g) != le.get(g)]   # a touch changes expiry and revision without a new CAS
+                    if diff:
+                        out.append(viol("C09.backfill-event-equals-live-event", i, "mutation %s/%s cas %s: backfill delivers %s, the live feed delivered %s (differs in %s)" % (
+                            f["coll"], e.get("k"), e.get("cas"), {g: e.get(g) for g in diff}, {g: le.get(g) for g in diff}, diff)))
         if not res.startswith("r=ok"):
             out.append(viol("C09.dump-terminates", i, "dump feed did not finish: " + res.split(" ")[0]))
             continue
